@@ -2,7 +2,9 @@
 mod layouts;
 mod load;
 mod malformed;
+mod config_check;
 mod domains;
+mod forge;
 mod matrix;
 mod mutate;
 mod queries;
@@ -57,6 +59,8 @@ fn main() {
         "tamper" => Some(tamper::run(&args)),
         "malformed" => Some(malformed::run(&args)),
         "queries" => Some(queries::run(&args)),
+        "config" => Some(config_check::run(&args)),
+        "forge" => Some(forge::run(&args)),
         _ => vcomp::dispatch(&args),
     };
     match rep {
